@@ -1003,3 +1003,53 @@ example := trsv_spec_partial_lower Tr.C (by decide) true 2 2 (#[2, 1, 0, 4] : Ar
   (by decide) (by decide) (by decide)
 
 end Slu.Cblas
+
+namespace Slu.Cblas
+open Finset Slu.Kernels
+section trsvN
+variable {K : Type} [Field K] [Inhabited K] [BEq K] [LawfulBEq K]
+variable [Conj K]
+
+omit [LawfulBEq K] in
+theorem trsv_lower_notrans_eq_sweep (nounit : Bool) (n lda : Nat) (a x : Array K) (incx : Int) :
+    trsv false Tr.N nounit n a lda x incx =
+      loop n (colStepLN n (spos n incx) (fun i j => a[i + j * lda]!) nounit) x := by
+  unfold trsv
+  have h : (Tr.N == Tr.N) = true := rfl
+  simp only [h, if_true, Bool.false_eq_true, if_false]
+  rfl
+
+/-- **trsv (partial, third branch: `uplo = L`, `trans = N`)** — the column sweep with the `x_j = 0`
+skip: the strided entries of the result solve the lower triangular system `A r = x` row by row
+(diagonal replaced by one for `diag = U`); everything else is unchanged. -/
+theorem trsv_spec_partial_lower_notrans (nounit : Bool) (n lda : Nat) (a x : Array K) (incx : Int)
+    (hinc : incx ≠ 0) (hb : ∀ i, i < n → spos n incx i < x.size)
+    (hd : nounit = true → ∀ j, j < n → a[j + j * lda]! ≠ 0) :
+    (trsv false Tr.N nounit n a lda x incx).size = x.size ∧
+    (∀ i, i < n →
+      (∑ j ∈ range i, a[i + j * lda]! * (trsv false Tr.N nounit n a lda x incx)[spos n incx j]!) +
+        (if nounit then a[i + i * lda]! else 1) * (trsv false Tr.N nounit n a lda x incx)[spos n incx i]! =
+      x[spos n incx i]!) ∧
+    (∀ p, (∀ i, i < n → spos n incx i ≠ p) → (trsv false Tr.N nounit n a lda x incx)[p]! = x[p]!) := by
+  rw [trsv_lower_notrans_eq_sweep]
+  obtain ⟨h1, h2, _, h4⟩ := sweepLN_spec n (spos n incx) (fun i j => a[i + j * lda]!) nounit x
+    (fun i j hi hj h => spos_inj n incx hinc i j hi hj h) hb n (le_refl _)
+  refine ⟨h1, ?_, h4⟩
+  intro i hi
+  have hdi : (if nounit then a[i + i * lda]! else 1) ≠ (0 : K) := by
+    cases hnu : nounit
+    · simp
+    · simpa using hd hnu i hi
+  have row := fwdSub_row (fun i j => a[i + j * lda]!) (fun j => if nounit then a[j + j * lda]! else 1)
+    (fun i => x[spos n incx i]!) n i hi hdi
+  rw [h2 i hi, Finset.sum_congr rfl (fun j hj => by rw [h2 j (by have := mem_range.mp hj; omega)])]
+  exact row
+
+end trsvN
+
+/-- lower triangular `[[2,0],[1,4]]`, `A r = x` with `x = (4, 10)` stored backwards -/
+example : trsv false Tr.N true 2 (#[2, 1, 0, 4] : Array Rat) 2 #[10, 4] (-1) = #[2, 2] := by decide +kernel
+example := trsv_spec_partial_lower_notrans true 2 2 (#[2, 1, 0, 4] : Array Rat) #[10, 4] (-1)
+  (by decide) (by decide) (by decide)
+
+end Slu.Cblas
